@@ -915,6 +915,12 @@ pub async fn handle_connection(
             let mut body_pipe =
                 ret_log_app_error!(response_pipe.send_response(response, false).await);
 
+            // a response to HEAD must not have a body
+            let body = if request.method() == Method::HEAD {
+                Bytes::new()
+            } else {
+                body
+            };
             ret_log_app_error!(body_pipe.send_with_maybe_close(body, true).await);
 
             return Ok(());
@@ -930,6 +936,12 @@ pub async fn handle_connection(
                 let mut body_pipe =
                     ret_log_app_error!(response_pipe.send_response(response, false).await);
 
+                // a response to HEAD must not have a body
+                let body = if request.method() == Method::HEAD {
+                    Bytes::new()
+                } else {
+                    body
+                };
                 ret_log_app_error!(body_pipe.send_with_maybe_close(body, true).await);
 
                 // see the comment on the other call to `drain` below
